@@ -1,4 +1,178 @@
+(* C19 -- property theorems only.  Each is closed by [exact] of a lemma from C19_Proofs and
+   followed by Print Assumptions.  [glob] stands for filepath.Match (matched, err <> nil) and
+   [clean] for path.Clean: every theorem holds for arbitrary such functions; subjects are
+   arbitrary (total functions from keys to string / map / Evaluable / error / anything else). *)
 From Coq Require Import ZArith List Bool String Ascii.
-From NV Require Import C19_Model C19_Proofs.
-Theorem C19_stub : True. Proof. exact I. Qed.
-Print Assumptions C19_stub.
+From NV Require Import Gen.Gen_Affinity C19_Model C19_Proofs.
+Import ListNotations.
+Open Scope string_scope.
+
+(* "In/NotIn ... are exact negations of each other": for every key, value list and subject
+   (None = the evaluation would panic; it is None on both sides or on neither) *)
+Theorem C19_in_notin_dual : forall glob clean k vs s,
+  evaluate glob clean (Expr k NotIn vs) s = option_map negb (evaluate glob clean (Expr k In vs) s) /\
+  evaluate glob clean (Expr k In vs) s = option_map negb (evaluate glob clean (Expr k NotIn vs) s).
+Proof. exact in_notin_dual. Qed.
+Print Assumptions C19_in_notin_dual.
+
+(* "Matches/MatchesNot are exact negations" *)
+Theorem C19_matches_dual : forall glob clean k vs s,
+  evaluate glob clean (Expr k MatchesNot vs) s = option_map negb (evaluate glob clean (Expr k Matches vs) s) /\
+  evaluate glob clean (Expr k Matches vs) s = option_map negb (evaluate glob clean (Expr k MatchesNot vs) s).
+Proof. exact matches_dual. Qed.
+Print Assumptions C19_matches_dual.
+
+(* "MatchesAny/MatchesNone are exact negations" *)
+Theorem C19_matchesany_none_dual : forall glob clean k vs s,
+  evaluate glob clean (Expr k MatchesNone vs) s = option_map negb (evaluate glob clean (Expr k MatchesAny vs) s) /\
+  evaluate glob clean (Expr k MatchesAny vs) s = option_map negb (evaluate glob clean (Expr k MatchesNone vs) s).
+Proof. exact matchesany_none_dual. Qed.
+Print Assumptions C19_matchesany_none_dual.
+
+(* "Exists/NotExists are exact negations" *)
+Theorem C19_exists_dual : forall glob clean k vs s,
+  evaluate glob clean (Expr k NotExist vs) s = option_map negb (evaluate glob clean (Expr k Exists vs) s) /\
+  evaluate glob clean (Expr k Exists vs) s = option_map negb (evaluate glob clean (Expr k NotExist vs) s).
+Proof. exact exists_dual. Qed.
+Print Assumptions C19_exists_dual.
+
+(* "evaluate per the documented operator semantics": the positive operators in terms of the
+   value of the key (fst) and whether it exists (snd) *)
+Theorem C19_operator_semantics : forall glob clean k s,
+  (forall vs, evaluate glob clean (Expr k In vs) s =
+     Some (snd (key_value clean k s) && existsb (fun v => (fst (key_value clean k s) =? v) || (v =? "*")) vs)) /\
+  (forall vs, evaluate glob clean (Expr k MatchesAny vs) s =
+     Some (snd (key_value clean k s) && existsb (fun p => fst (glob p (fst (key_value clean k s)))) vs)) /\
+  (forall p, evaluate glob clean (Expr k Matches [p]) s =
+     Some (snd (key_value clean k s) && fst (glob p (fst (key_value clean k s))))) /\
+  (forall v, evaluate glob clean (Expr k Equals [v]) s =
+     Some (snd (key_value clean k s) && ((fst (key_value clean k s) =? v) || (v =? "*")))) /\
+  evaluate glob clean (Expr k Exists []) s = Some (snd (key_value clean k s)).
+Proof.
+  exact (fun glob clean k s =>
+    conj (fun vs => in_spec glob clean k vs s) (conj (fun vs => matchesany_spec glob clean k vs s)
+    (conj (fun p => matches_spec glob clean k p s) (conj (fun v => equals_spec glob clean k v s) (exists_spec glob clean k s))))).
+Qed.
+Print Assumptions C19_operator_semantics.
+
+(* "joint keys evaluate to their sub-key values joined by the separator": the full form
+   :<ksep><vsep><ksep-separated sub-keys>, for arbitrary separators accepted by validSeparator and
+   arbitrary sub-keys not containing ksep; a sub-key that does not resolve contributes "", the
+   joint key exists iff one of its sub-keys does *)
+Theorem C19_joint_key_value : forall clean ksep vsep ks s,
+  valid_separator ksep = true -> valid_separator vsep = true ->
+  ks <> [] -> Forall (fun k => contains_char ksep k = false) ks ->
+  join (String ksep "") ks <> "" ->
+  key_value clean (String ":" (String ksep (String vsep (join (String ksep "") ks)))) s =
+    (join (String vsep "") (map (fun k => dflt_str (resolve_ref clean s k)) ks),
+     existsb (fun k => is_some (resolve_ref clean s k)) ks).
+Proof. exact joint_full. Qed.
+Print Assumptions C19_joint_key_value.
+
+(* the simple form :<colon-separated sub-keys> (its first two bytes are not both separators) *)
+Theorem C19_joint_key_simple : forall clean ks s k v c3 rest,
+  ks <> [] -> Forall (fun k => contains_char ":" k = false) ks ->
+  join ":" ks = String k (String v (String c3 rest)) ->
+  valid_separator k && valid_separator v = false ->
+  key_value clean (String ":" (join ":" ks)) s =
+    (join ":" (map (fun k => dflt_str (resolve_ref clean s k)) ks),
+     existsb (fun k => is_some (resolve_ref clean s k)) ks).
+Proof. exact joint_simple. Qed.
+Print Assumptions C19_joint_key_simple.
+
+(* documented: ":keylist" is equivalent to ":::keylist" *)
+Theorem C19_joint_simple_equiv : forall clean ks s k v c3 rest,
+  ks <> [] -> Forall (fun k => contains_char ":" k = false) ks ->
+  join ":" ks = String k (String v (String c3 rest)) ->
+  valid_separator k && valid_separator v = false ->
+  key_value clean (String ":" (join ":" ks)) s = key_value clean (String ":" (String ":" (String ":" (join ":" ks)))) s.
+Proof. exact joint_simple_equiv. Qed.
+Print Assumptions C19_joint_simple_equiv.
+
+(* the hypotheses of the joint-key theorems are satisfiable *)
+Example C19_joint_example :
+  key_value clean_impl ":,;name,labels/app" (obj_of [("name", VStr "web"); ("labels", VMap [("app", "db")])] VErr) = ("web;db", true) /\
+  key_value clean_impl ":pod/name:name" (obj_of [("name", VStr "web")] VErr) = (":web", true).
+Proof. split; vm_compute; reflexivity. Qed.
+
+(* "an expression accepted by validation never fails at evaluation": Evaluate of a validated
+   expression does not panic, for every subject *)
+Theorem C19_validated_total : forall glob clean e s, validate e = true -> evaluate glob clean e s <> None.
+Proof. exact validated_total. Qed.
+Print Assumptions C19_validated_total.
+
+(* without validation it can (so the hypothesis is not vacuous) *)
+Example C19_unvalidated_panics :
+  validate (Expr "name" Equals []) = false /\
+  evaluate glob_impl clean_impl (Expr "name" Equals []) (obj_of [("name", VStr "x")] VErr) = None.
+Proof. split; vm_compute; reflexivity. Qed.
+
+(* "the weight of every user-supplied affinity is clamped to [-1000, 1000]": for every int32 (in
+   fact every integer) weight and either annotation kind; the cutoff is the source constant *)
+Theorem C19_weight_clamped : forall dflt w,
+  (- AFF_UserWeightCutoff <= full_weight dflt w <= AFF_UserWeightCutoff)%Z.
+Proof. exact weight_clamped. Qed.
+Print Assumptions C19_weight_clamped.
+
+(* weights inside the range are kept (negated for anti-affinities); an omitted weight is the default *)
+Theorem C19_weight_in_range : forall dflt w,
+  (w <> 0 -> - AFF_UserWeightCutoff <= w <= AFF_UserWeightCutoff ->
+   full_weight dflt w = if dflt <? 0 then - w else w)%Z /\
+  ((- AFF_UserWeightCutoff <= dflt <= AFF_UserWeightCutoff)%Z -> full_weight dflt 0 = dflt).
+Proof. exact (fun dflt w => conj (weight_in_range_kept dflt w) (weight_default dflt)). Qed.
+Print Assumptions C19_weight_in_range.
+
+(* balloon type choice, for every ordered list of types with validated match expressions, every
+   subject, namespace and effective annotation:
+   annotation -> the (first) type with that name, unknown name -> error;
+   no annotation -> the first type in list order with a true match expression or a matching
+   namespace pattern; none -> the default type *)
+Theorem C19_choose_spec : forall glob clean defs dflt s ns, all_validated defs ->
+  (forall n l1 d l2, defs = (l1 ++ d :: l2)%list -> d_name d = n -> (forall x, List.In x l1 -> d_name x <> n) ->
+      choose glob clean defs dflt (Some n) s ns = ChDef d) /\
+  (forall n, (forall x, List.In x defs -> d_name x <> n) -> choose glob clean defs dflt (Some n) s ns = ChErr) /\
+  (forall l1 d l2, defs = (l1 ++ d :: l2)%list -> def_matches glob clean s ns d = true ->
+      (forall x, List.In x l1 -> def_matches glob clean s ns x = false) -> choose glob clean defs dflt None s ns = ChDef d) /\
+  ((forall x, List.In x defs -> def_matches glob clean s ns x = false) -> choose glob clean defs dflt None s ns = ChDef dflt).
+Proof. exact choose_spec. Qed.
+Print Assumptions C19_choose_spec.
+
+(* an accepted configuration has only validated expressions, its default type is the type named
+   "default", and choosing a type never panics *)
+Theorem C19_accepted_config : forall glob clean o defs dflt, eff_config o = Some (defs, dflt) ->
+  all_validated defs /\ List.In dflt defs /\ d_name dflt = default_name /\
+  forall ann s ns, choose glob clean defs dflt ann s ns <> ChPanic.
+Proof.
+  exact (fun glob clean o defs dflt E =>
+    conj (eff_config_validated o defs dflt E)
+   (conj (proj1 (proj2 (eff_config_defs o defs dflt E)))
+   (conj (proj2 (proj2 (eff_config_defs o defs dflt E)))
+         (fun ann s ns => choose_no_panic glob clean defs dflt ann s ns (eff_config_validated o defs dflt E))))).
+Qed.
+Print Assumptions C19_accepted_config.
+
+(* "kube-system and the configured reserved namespaces match the reserved type": every namespace
+   matched by the literal pattern kube-system or by a configured reserved namespace pattern
+   matches the namespaces of the reserved type of the effective configuration *)
+Theorem C19_reserved_namespaces_match_reserved : forall glob o defs dflt, eff_config o = Some (defs, dflt) ->
+  exists r, List.In r defs /\ d_name r = reserved_name /\
+    forall ns, ns_pat_match glob ns kube_system = true \/ namespace_matches glob ns (reserved_ns_of o) = true ->
+               namespace_matches glob ns (d_ns r) = true.
+Proof. exact reserved_matches. Qed.
+Print Assumptions C19_reserved_namespaces_match_reserved.
+
+(* when the reserved type is the implicit one it is first in the order, so such a container
+   without an annotation gets the reserved type *)
+Theorem C19_implicit_reserved_chosen : forall glob clean o defs dflt s ns, eff_config o = Some (defs, dflt) ->
+  existsb (fun d => d_name d =? reserved_name) (o_defs o) = false ->
+  ns_pat_match glob ns kube_system = true \/ namespace_matches glob ns (reserved_ns_of o) = true ->
+  exists r, choose glob clean defs dflt None s ns = ChDef r /\ d_name r = reserved_name.
+Proof. exact implicit_reserved_chosen. Qed.
+Print Assumptions C19_implicit_reserved_chosen.
+
+(* the hypotheses are satisfiable: for the modelled Match the pattern kube-system matches the
+   namespace kube-system, and a configuration is accepted *)
+Example C19_reserved_example :
+  ns_pat_match glob_impl kube_system kube_system = true /\
+  exists defs dflt, eff_config (BOpts [BDef "a" [Expr "name" Exists []] ["ns*"]] None) = Some (defs, dflt).
+Proof. split; [exact glob_impl_kube_system|]. eexists. eexists. vm_compute. reflexivity. Qed.
